@@ -178,7 +178,7 @@ def extract(repo):
     out = []
     emit = out.append
     emit('(* GENERATED by harness/extract.py from the working tree of /repo -- do not edit. *)')
-    emit('From Coq Require Import ZArith List Bool.')
+    emit('From Coq Require Import ZArith NArith List Bool.')
     emit('Import ListNotations.')
     emit('Open Scope Z_scope.')
     emit('')
@@ -376,6 +376,285 @@ def extract(repo):
     n, d = ceil_div_args(rets[0].value, 'Torrent.pieces')
     if not (ast.unparse(n) == 'size' and ast.unparse(d) == 'piece_size'):
         fail('Torrent.pieces: expected math.ceil(size / piece_size)')
+
+
+    # ---- Torrent.validate: rule table (arguments of every utils.assert_type call) ----
+    emit('(* Torrent.validate: rule table *)')
+    emit('Inductive ex_key := XK (s : list N) | XI | XJ.')
+    emit('Inductive ex_type := XTdict | XTstr | XTbytes | XTint | XTbool | XTfloat | XTdatetime | XTiterable | XTmapping.')
+    emit('Inductive ex_check := XCnone | XC16kib | XCurl | XCmd5 | XCnonneg.')
+    emit('Record ex_rule := { xr_path : list ex_key; xr_types : list ex_type; xr_must : bool; xr_check : ex_check }.')
+    TYPES = {'dict': 'XTdict', 'str': 'XTstr', 'bytes': 'XTbytes', 'int': 'XTint', 'bool': 'XTbool', 'float': 'XTfloat',
+             'datetime': 'XTdatetime', 'utils.Iterable': 'XTiterable', 'abc.Mapping': 'XTmapping'}
+    CHECKS = {'utils.is_divisible_by_16_kib': 'XC16kib', 'utils.is_url': 'XCurl', 'utils.is_md5sum': 'XCmd5', 'utils.is_non_negative': 'XCnonneg'}
+
+    def bytes_lit(st):
+        return '[' + '; '.join(str(b) for b in st.encode()) + ']%N'
+
+    def rule_of(call, loopvars):
+        if not (isinstance(call, ast.Call) and ast.unparse(call.func) == 'utils.assert_type'):
+            fail('validate: expected utils.assert_type call, got ' + ast.unparse(call)[:80])
+        if len(call.args) != 3 or ast.unparse(call.args[0]) != 'md':
+            fail('validate: assert_type positional arguments: ' + ast.unparse(call)[:80])
+        keys = []
+        if not isinstance(call.args[1], ast.Tuple):
+            fail('validate: keys not a tuple')
+        for k in call.args[1].elts:
+            if isinstance(k, ast.Constant) and isinstance(k.value, str):
+                keys.append('XK ' + bytes_lit(k.value))
+            elif isinstance(k, ast.Name) and k.id in loopvars:
+                keys.append(loopvars[k.id])
+            else:
+                fail('validate: unexpected key ' + ast.unparse(k))
+        types = []
+        if not isinstance(call.args[2], ast.Tuple):
+            fail('validate: types not a tuple')
+        for t in call.args[2].elts:
+            u = ast.unparse(t)
+            if u not in TYPES:
+                fail('validate: unexpected type ' + u)
+            types.append(TYPES[u])
+        must, check = 'true', 'XCnone'
+        for kw in call.keywords:
+            if kw.arg == 'must_exist' and isinstance(kw.value, ast.Constant) and isinstance(kw.value.value, bool):
+                must = 'true' if kw.value.value else 'false'
+            elif kw.arg == 'check' and ast.unparse(kw.value) in CHECKS:
+                check = CHECKS[ast.unparse(kw.value)]
+            else:
+                fail('validate: unexpected keyword ' + ast.unparse(kw))
+        return '{| xr_path := [%s]; xr_types := [%s]; xr_must := %s; xr_check := %s |}' % ('; '.join(keys), '; '.join(types), must, check)
+
+    f = find_func(T, 'validate')
+    body = [st for st in f.body if not (isinstance(st, ast.Expr) and isinstance(st.value, ast.Constant))]
+    if not (ast.unparse(body[0]) == 'md = self.metainfo' and ast.unparse(body[1]) == "info = md['info']"):
+        fail('validate: prologue changed')
+    common = []
+    idx = 2
+    while idx < len(body) and isinstance(body[idx], ast.Expr):
+        common.append(rule_of(body[idx].value, {}))
+        idx += 1
+    loop = body[idx]
+    if not (isinstance(loop, ast.For) and ast.unparse(loop.iter) == "enumerate(md.get('announce-list', ()))"):
+        fail('validate: announce-list loop not found where expected')
+    if not (len(loop.body) == 2 and isinstance(loop.body[0], ast.Expr) and isinstance(loop.body[1], ast.For)
+            and ast.unparse(loop.body[1].iter) == "enumerate(md['announce-list'][i])" and len(loop.body[1].body) == 1):
+        fail('validate: announce-list loop shape')
+    al_i = rule_of(loop.body[0].value, {'i': 'XI'})
+    al_ij = rule_of(loop.body[1].body[0].value, {'i': 'XI', 'j': 'XJ'})
+    chain = body[idx + 1]
+    if idx + 2 != len(body) or not isinstance(chain, ast.If):
+        fail('validate: expected a single if/elif chain after the announce-list loop')
+    tests = []
+    node = chain
+    branches = []
+    while True:
+        tests.append(ast.unparse(node.test))
+        branches.append(node.body)
+        if len(node.orelse) == 1 and isinstance(node.orelse[0], ast.If):
+            node = node.orelse[0]
+        else:
+            final_else = node.orelse
+            break
+    exp_tests = ["len(info['pieces']) == 0", "len(info['pieces']) % 20 != 0", "'length' in info and 'files' in info",
+                 "'length' in info", "'files' in info"]
+    if tests != exp_tests:
+        fail(f'validate: branch tests changed: {tests}')
+    for b in branches[:3] + [final_else]:
+        if not (len(b) == 1 and isinstance(b[0], ast.Raise) and 'MetainfoError' in ast.unparse(b[0])):
+            fail('validate: expected a single raise MetainfoError in a structural branch')
+    single = branches[3]
+    srules = []
+    k = 0
+    while k < len(single) and isinstance(single[k], ast.Expr):
+        srules.append(rule_of(single[k].value, {}))
+        k += 1
+    rest = [ast.unparse(x) for x in single[k:k + 3]]
+    if not (rest[0] == "piece_count = int(len(info['pieces']) / 20)"
+            and rest[1] == "exp_piece_count = -(-info['length'] // info['piece length'])"
+            and rest[2].startswith('if piece_count != exp_piece_count:')):
+        fail('validate: singlefile piece count check changed: ' + repr(rest))
+    if not (len(single) == k + 4 and ast.unparse(single[k + 3].test) == 'self.path is not None'):
+        fail('validate: singlefile path check shape')
+    multi = branches[4]
+    if not (isinstance(multi[0], ast.Expr) and isinstance(multi[1], ast.For)
+            and ast.unparse(multi[1].iter) == "enumerate(info['files'])"):
+        fail('validate: multifile branch shape')
+    files_rule = rule_of(multi[0].value, {})
+    frules = []
+    for st in multi[1].body:
+        if isinstance(st, ast.Expr):
+            frules.append(rule_of(st.value, {'i': 'XI'}))
+        elif isinstance(st, ast.For) and ast.unparse(st.iter) == "enumerate(fileinfo['path'])" and len(st.body) == 1:
+            path_rule = rule_of(st.body[0].value, {'i': 'XI', 'j': 'XJ'})
+        else:
+            fail('validate: unexpected statement in files loop: ' + ast.unparse(st)[:80])
+    rest = [ast.unparse(x) for x in multi[2:5]]
+    if not (rest[0] == "piece_count = int(len(info['pieces']) / 20)"
+            and rest[1] == "exp_piece_count = -(-sum((fileinfo['length'] for fileinfo in info['files'])) // info['piece length'])"
+            and rest[2].startswith('if piece_count != exp_piece_count:')):
+        fail('validate: multifile piece count check changed: ' + repr(rest))
+    if not (len(multi) == 6 and ast.unparse(multi[5].test) == 'self.path is not None'):
+        fail('validate: multifile path check shape')
+    emit('Definition ex_rules_common : list ex_rule := [' + ';\n  '.join(common) + '].')
+    emit('Definition ex_rule_al_i : ex_rule := ' + al_i + '.')
+    emit('Definition ex_rule_al_ij : ex_rule := ' + al_ij + '.')
+    emit('Definition ex_rules_single : list ex_rule := [' + ';\n  '.join(srules) + '].')
+    emit('Definition ex_rule_files : ex_rule := ' + files_rule + '.')
+    emit('Definition ex_rules_file_i : list ex_rule := [' + ';\n  '.join(frules) + '].')
+    emit('Definition ex_rule_path_j : ex_rule := ' + path_rule + '.')
+
+    # ---- _utils.ENCODE_ALLOWED_TYPES / ENCODE_CONVERTERS (dispatch order) ----
+    conv = None
+    allowed = None
+    for n in utils.body:
+        if isinstance(n, ast.Assign) and len(n.targets) == 1 and isinstance(n.targets[0], ast.Name):
+            if n.targets[0].id == 'ENCODE_CONVERTERS':
+                conv = n.value
+            if n.targets[0].id == 'ENCODE_ALLOWED_TYPES':
+                allowed = n.value
+    if conv is None or allowed is None or not isinstance(conv, ast.Dict):
+        fail('ENCODE_CONVERTERS / ENCODE_ALLOWED_TYPES not found')
+    if ast.unparse(allowed) != '(bytes, int)':
+        fail('ENCODE_ALLOWED_TYPES changed: ' + ast.unparse(allowed))
+    got = [(ast.unparse(k), ast.unparse(v)) for k, v in zip(conv.keys, conv.values)]
+    want = [('str', "lambda val: str(val).encode(encoding='utf-8', errors='replace')"), ('float', 'int'), ('bool', 'int'),
+            ('collections.abc.Mapping', 'encode_dict'), ('collections.abc.Sequence', 'encode_list'),
+            ('collections.abc.Collection', 'encode_list'), ('datetime', 'lambda dt: int(dt.timestamp())')]
+    if got != want:
+        fail(f'ENCODE_CONVERTERS changed: {got}')
+    emit('(* _utils.ENCODE_CONVERTERS: checked to be the table the model implements (str, float, bool, Mapping, Sequence, Collection, datetime) *)')
+    emit('Definition ex_converters_checked : bool := true.')
+    ed = find_func(utils, 'encode_dict')
+    if ast.unparse(ed).replace(' ', '').replace('\n', '') != ("defencode_dict(dct):dct_enc=collections.OrderedDict()forkeyindct:ifnotisinstance(key,str):raiseValueError(f'Invalidkey:{key!r}')"
+            "forkey,valueinsorted(dct.items()):key_enc=str(key).encode('utf8')value_enc=encode_value(value)"
+            "dct_enc[key_enc]=value_encreturndct_enc"):
+        fail('encode_dict changed')
+    ev = find_func(utils, 'encode_value')
+    if ast.unparse(ev).replace(' ', '').replace('\n', '') != ("defencode_value(value):iftype(value)inENCODE_ALLOWED_TYPES:returnvalueelse:"
+            "forcls,converterinENCODE_CONVERTERS.items():ifisinstance(value,cls):returnconverter(value)raiseValueError(f'Invalidvalue:{value!r}')"):
+        fail('encode_value changed')
+
+
+    # ---- Torrent.write / write_stream / dump / read_stream: order of effects ----
+    emit('(* Torrent.write / write_stream / dump: order of effects *)')
+    emit('Inductive ex_wstep := WCheckExists | WDump | WOpenWrite.')
+    emit('Inductive ex_sstep := SDump | SSeekTruncate | SWrite.')
+    emit('Inductive ex_dstep := DValidate | DConvertEncode.')
+    f = find_func(T, 'write')
+    steps = []
+    for st in f.body:
+        u = ast.unparse(st)
+        if isinstance(st, ast.Expr) and isinstance(st.value, ast.Constant):
+            continue
+        if isinstance(st, ast.If) and u.startswith('if not overwrite and os.path.exists(filepath):') and 'raise error.WriteError(errno.EEXIST, filepath)' in u:
+            steps.append('WCheckExists')
+        elif u == 'content = io.BytesIO()' or u == 'content.seek(0)':
+            continue
+        elif u == 'self.write_stream(content, validate=validate)':
+            steps.append('WDump')
+        elif isinstance(st, ast.Try) and "open(filepath, 'wb')" in u and 'f.write(content.read())' in u and 'raise error.WriteError(e.errno, filepath)' in u:
+            steps.append('WOpenWrite')
+        else:
+            fail('Torrent.write: unexpected statement: ' + u[:100])
+    if sorted(steps) != sorted(['WCheckExists', 'WDump', 'WOpenWrite']):
+        fail(f'Torrent.write: steps {steps}')
+    emit('Definition ex_write_steps : list ex_wstep := [' + '; '.join(steps) + '].')
+    f = find_func(T, 'write_stream')
+    steps = []
+    for st in f.body:
+        u = ast.unparse(st)
+        if isinstance(st, ast.Expr) and isinstance(st.value, ast.Constant):
+            continue
+        if u == 'content = self.dump(validate=validate)':
+            steps.append('SDump')
+        elif isinstance(st, ast.Try) and 'raise error.WriteError(e.errno)' in u:
+            for t in st.body:
+                tu = ast.unparse(t)
+                if isinstance(t, ast.If) and ast.unparse(t.test) == 'stream.seekable()' and [ast.unparse(x) for x in t.body] == ['stream.seek(0)', 'stream.truncate(0)']:
+                    steps.append('SSeekTruncate')
+                elif tu == 'stream.write(content)':
+                    steps.append('SWrite')
+                else:
+                    fail('write_stream: unexpected statement in try: ' + tu[:100])
+        else:
+            fail('write_stream: unexpected statement: ' + u[:100])
+    if sorted(steps) != sorted(['SDump', 'SSeekTruncate', 'SWrite']):
+        fail(f'write_stream: steps {steps}')
+    emit('Definition ex_write_stream_steps : list ex_sstep := [' + '; '.join(steps) + '].')
+    f = find_func(T, 'dump')
+    body = [st for st in f.body if not (isinstance(st, ast.Expr) and isinstance(st.value, ast.Constant))]
+    if [' '.join(ast.unparse(x).split()) for x in body] != ['if validate: self.validate()', 'metainfo = self.convert()',
+            'try: return bencode.encode(metainfo) except ValueError as e: raise error.MetainfoError(e)']:
+        fail('Torrent.dump changed: ' + repr([ast.unparse(x) for x in body]))
+    emit('Definition ex_dump_steps : list ex_dstep := [DValidate; DConvertEncode].')
+    f = find_func(T, 'convert')
+    body = [st for st in f.body if not (isinstance(st, ast.Expr) and isinstance(st.value, ast.Constant))]
+    if ast.unparse(body[0]).replace('\n', ' ').split() != 'try: return utils.encode_dict(self.metainfo) except (ValueError, OverflowError) as e: raise error.MetainfoError(e)'.split():
+        fail('Torrent.convert changed')
+    f = find_func(T, 'is_ready')
+    body = [st for st in f.body if not (isinstance(st, ast.Expr) and isinstance(st.value, ast.Constant))]
+    if ast.unparse(body[0]).split() != 'try: self.validate() except error.MetainfoError: return False else: return True'.split():
+        fail('Torrent.is_ready changed')
+    f = find_func(T, 'infohash')
+    body = [st for st in f.body if not (isinstance(st, ast.Expr) and isinstance(st.value, ast.Constant))]
+    want = ("try: try: self.validate() try: info = bencode.encode(utils.encode_dict(self.metainfo['info'])) except (ValueError, OverflowError) as e: raise error.MetainfoError(e) "
+            "else: return hashlib.sha1(info).hexdigest() except error.MetainfoError as e: try: return self._infohash "
+            "except AttributeError: raise e")
+    got = ast.unparse(body[0]).split()
+    if got[0:2] == ['try:', 'try:']:
+        got = got[1:]   # tolerate the nested/unnested spelling difference of ast.unparse
+    if ' '.join(got) != ' '.join(want.split()[1:]):
+        fail('Torrent.infohash changed: ' + ' '.join(got)[:300])
+
+
+    # ---- Torrent.read_stream: which exceptions of the decoder / converters are mapped to documented errors ----
+    f = find_func(T, 'read_stream')
+    src = ast.unparse(f)
+    tries = [n for n in ast.walk(f) if isinstance(n, ast.Try)]
+    dec = [t for t in tries if any(ast.unparse(x) == 'metainfo_enc = bencode.decode(content)' for x in t.body)]
+    if len(dec) != 1 or len(dec[0].handlers) != 1 or ast.unparse(dec[0].handlers[0].body[0]) != 'raise error.BdecodeError()':
+        fail('read_stream: try around bencode.decode not found')
+    ht = dec[0].handlers[0].type
+    names = [ast.unparse(x) for x in (ht.elts if isinstance(ht, ast.Tuple) else [ht])]
+    NM = {'bencode.DecodingError': 'XDecodingError', 'ValueError': 'XValueError', 'OverflowError': 'XOverflowError', 'MemoryError': 'XMemoryError'}
+    for n in names:
+        if n not in NM:
+            fail('read_stream: unexpected exception caught around decode: ' + n)
+    emit('(* Torrent.read_stream: exceptions mapped to documented errors *)')
+    emit('Inductive ex_exc := XDecodingError | XValueError | XOverflowError | XMemoryError | XRecursionError | XOSError.')
+    emit('Definition ex_read_decode_catches : list ex_exc := [' + '; '.join(NM[n] for n in names) + '].')
+    rec = [t for t in tries if any('utils.decode_dict(metainfo_enc)' in ast.unparse(x) for x in t.body)
+           and t is not dec[0]]
+    rc = []
+    if rec:
+        if not (len(rec) == 1 and len(rec[0].handlers) == 1 and ast.unparse(rec[0].handlers[0].body[0]) == 'raise error.BdecodeError()'):
+            fail('read_stream: unexpected try around decode_dict')
+        ht = rec[0].handlers[0].type
+        for n in [ast.unparse(x) for x in (ht.elts if isinstance(ht, ast.Tuple) else [ht])]:
+            if n != 'RecursionError':
+                fail('read_stream: unexpected exception caught around decode_dict: ' + n)
+            rc.append('XRecursionError')
+    emit('Definition ex_read_convert_catches : list ex_exc := [' + '; '.join(rc) + '].')
+    cd = [t for t in tries if any("torrent.creation_date = metainfo_enc[b'creation date']" in ast.unparse(x) for x in t.body)]
+    cc = []
+    if cd:
+        if not (len(cd) == 1 and len(cd[0].handlers) == 1 and ast.unparse(cd[0].handlers[0].body[0]).startswith('raise error.MetainfoError(')):
+            fail('read_stream: unexpected try around creation_date')
+        ht = cd[0].handlers[0].type
+        M2 = {'ValueError': 'XValueError', 'OverflowError': 'XOverflowError', 'OSError': 'XOSError'}
+        for n in [ast.unparse(x) for x in (ht.elts if isinstance(ht, ast.Tuple) else [ht])]:
+            if n not in M2:
+                fail('read_stream: unexpected exception caught around creation_date: ' + n)
+            cc.append(M2[n])
+    elif "torrent.creation_date = metainfo_enc[b'creation date']" not in src:
+        fail('read_stream: creation date assignment not found')
+    emit('Definition ex_read_cdate_catches : list ex_exc := [' + '; '.join(cc) + '].')
+    if "utils.assert_type(metainfo, ('info',), (dict,), must_exist=validate)" not in src:
+        fail('read_stream: info-is-dict assertion not found')
+    order = [src.index("utils.assert_type(metainfo, ('info',), (dict,), must_exist=validate)"), src.index("torrent.creation_date = metainfo_enc[b'creation date']"),
+             src.index("torrent.private = metainfo_enc[b'info'][b'private']"), src.index('torrent.validate()')]
+    if order != sorted(order):
+        fail('read_stream: order of info assertion / creation date / private / validate changed')
 
     emit('')
     return '\n'.join(out) + '\n'
